@@ -55,7 +55,9 @@ def enc(x):
   if isinstance(x, float):
     return ["float", x.hex()]
   if isinstance(x, str):
-    return ["str", x]
+    return ["str", x] if type(x) is str else ["other", type(x).__name__, repr(x)]
+  if isinstance(x, bytes):
+    return ["bytes", x.hex()] if type(x) is bytes else ["other", type(x).__name__, repr(x)]
   if isinstance(x, Fraction):
     return ["frac", x.numerator, x.denominator]
   if isinstance(x, tuple):
@@ -81,6 +83,8 @@ def dec(j):
     return tuple(dec(y) for y in j[1])
   if t == "obj":
     return objtable()[j[1]]
+  if t == "bytes":
+    return bytes.fromhex(j[1])
   raise ValueError(j)
 
 
@@ -104,6 +108,8 @@ def pv(j):
     return '(vt "%s")' % repr(dec(j)).replace('"', '""')
   if t == "obj":
     return '(PV "object-by-identity" (IS %s))' % L.string(j[1])
+  if t == "bytes":
+    return '(PV "bytes" (IS %s))' % L.string(j[1])
   safe = "".join(ch if (32 <= ord(ch) < 127 and ch not in '"\\') else "?" for ch in j[2])[:60]
   return '(PV %s (IS %s))' % (L.string("other:" + j[1]), L.string(safe))
 
@@ -139,7 +145,14 @@ class SubTuple(tuple):
 ANY_KINDS = ["list", "tuple", "deque", "dqmax", "gen", "iter", "stream", "hub", "only", "sublist", "revlist",
              "subtuple", "chain", "map", "dictvals"]
 INT_KINDS = ["range", "arr"]          # need small ints forming a range / fitting array('i')
-SPECIAL_KINDS = ["keys", "rep"]       # distinct hashable items / one repeated item
+SPECIAL_KINDS = ["keys", "rep"]
+STR_KINDS = ["str", "strsub"]         # the sequence IS a text: its items are its characters
+BYTE_KINDS = ["bytes", "bytearray"]   # items are ints 0..255
+
+
+class SubStr(str):
+  pass
+       # distinct hashable items / one repeated item
 LIVE_KINDS = ["list", "iter", "gen", "only", "stream", "hub", "sublist", "chain", "map"]  # see a live list through its iterator
 REITERABLE = ["list", "tuple", "deque", "dqmax", "only", "sublist", "subtuple", "range", "arr"]
 
@@ -184,6 +197,14 @@ def mk_source(kind, items, live=None):
     return map(lambda v: v, base), base
   if kind == "dictvals":
     d = dict(enumerate(base)); return d.values(), d
+  if kind == "str":
+    t = "".join(base); return t, t
+  if kind == "strsub":
+    t = SubStr("".join(base)); return t, t
+  if kind == "bytes":
+    t = bytes(base); return t, t
+  if kind == "bytearray":
+    t = bytearray(base); return t, t
   if kind == "range":
     r = range(base[0], base[-1] + 1) if base else range(0); return r, None
   if kind == "arr":
